@@ -525,6 +525,13 @@ func (c *SpecCtx) eval(e SExpr) Val {
 		if v, ok := c.lookupIdent(x.Name); ok {
 			return v
 		}
+		if c.fn != nil && c.f != nil {
+			if nn := c.f.en.renames[funcKey(c.fn)][x.Name]; nn != "" {
+				if v, ok := c.lookupIdent(nn); ok {
+					return v
+				}
+			}
+		}
 		c.errorf("unknown identifier %s (in %s)", x.Name, c.fnName())
 		return intV("0")
 	case SOld:
